@@ -46,9 +46,12 @@ fn simple_acts(tier: &str) -> Vec<Act> {
 /// closures without a rebuild
 fn act_lists(tier: &str) -> Vec<Vec<Act>> {
     let all = simple_acts(tier);
-    let firsts: Vec<Act> = if tier == "thorough" { all.clone() } else {
-        vec![Act::Start(0, vec![]), Act::Start(0, vec![CAct::LogsNow]), Act::Start(0, vec![CAct::Panic]), Act::Shell(s("true")), Act::Sbom, Act::Panic]
-    };
+    let mut firsts: Vec<Act> =
+        vec![Act::Start(0, vec![]), Act::Start(0, vec![CAct::LogsNow]), Act::Start(0, vec![CAct::Panic]), Act::Shell(s("true")), Act::Sbom, Act::Panic];
+    if tier == "thorough" {
+        firsts.extend([Act::Start(0, vec![CAct::Port(8080)]), Act::Start(0, vec![CAct::Port(9999)]), Act::Start(0, vec![CAct::Exec(s("ps"))]),
+            Act::Start(0, vec![CAct::LogsWait]), Act::Start(0, vec![CAct::LogsNow, CAct::Panic]), Act::Start(0, vec![CAct::Port(8080), CAct::LogsNow])]);
+    }
     let mut out: Vec<Vec<Act>> = vec![vec![]];
     for a in &all { out.push(vec![a.clone()]); }
     for a in &firsts { for b in &all { out.push(vec![a.clone(), b.clone()]); } }
@@ -114,15 +117,27 @@ fn generate(tier: &str, seed: u64, emit: &mut dyn FnMut(Case)) {
         for k in 1..=max_cmds(acts) { push(&base, &tree, format!("z:{k}")); }
     }
     // 2. rebuild as the last act: prefix × inner closure × every injection point
-    let prefixes: Vec<Vec<Act>> = if thorough { lists.iter().filter(|l| l.len() <= 1).cloned().collect() }
-        else { vec![vec![], vec![Act::Shell(s("true"))], vec![Act::Start(0, vec![CAct::LogsNow])]] };
-    let inners: Vec<Vec<Act>> = lists.iter().filter(|l| l.len() <= if thorough { 2 } else { 1 }).cloned().collect();
+    let mut prefixes: Vec<Vec<Act>> = vec![vec![], vec![Act::Shell(s("true"))], vec![Act::Start(0, vec![CAct::LogsNow])]];
+    if thorough { prefixes.extend([vec![Act::Sbom], vec![Act::Start(0, vec![CAct::Port(8080), CAct::Exec(s("ps"))])], vec![Act::Shell(s("true")), Act::Start(0, vec![])]]); }
+    let singles: Vec<Vec<Act>> = lists.iter().filter(|l| l.len() <= 1).cloned().collect();
+    let mut inners: Vec<Vec<Act>> = singles.clone();
+    if thorough { inners.extend(act_lists("quick").into_iter().filter(|l| l.len() == 2)); }
     for p in &prefixes { for inner in &inners {
         let mut acts = p.clone(); acts.push(Act::Rebuild(1, inner.clone()));
         let tree = Tree { cfg: 0, acts };
         push(&base, &tree, s("-"));
         for k in 1..=max_cmds(&tree.acts) { push(&base, &tree, format!("z:{k}")); }
     } }
+    // 2b. (thorough) depth 4: a rebuild inside a rebuild
+    if thorough {
+        for p in &prefixes[..2] { for q in &prefixes[..3] { for inner in &singles {
+            let mut mid = q.clone(); mid.push(Act::Rebuild(0, inner.clone()));
+            let mut acts = p.clone(); acts.push(Act::Rebuild(1, mid));
+            let tree = Tree { cfg: 0, acts };
+            push(&base, &tree, s("-"));
+            for k in 1..=max_cmds(&tree.acts) { push(&base, &tree, format!("z:{k}")); }
+        } } }
+    }
     // 3. builds that end by themselves: pack against either expectation, missing app dir, unknown target triple,
     //    with/without preprocessor, as first build and as rebuild, × representative closures × injection points
     let reps: Vec<Vec<Act>> = vec![vec![], vec![Act::Start(0, vec![CAct::LogsNow])], vec![Act::Start(0, vec![CAct::Panic])], vec![Act::Shell(s("true"))], vec![Act::Sbom, Act::Panic]];
